@@ -29,6 +29,11 @@ enum Header {
     /// no header at all although the listener requires one
     Missing,
     Malformed(usize),
+    /// a line that is almost a v1 header: the PROXY protocol specification does not allow it, a
+    /// tolerant parser might (0: the byte after `PROXY` is not a blank, 1: a port with a sign,
+    /// 2: a line longer than the 107 bytes a v1 header may have). The announced source (or, for
+    /// the address-less long line, the TCP peer) is one that nobody else uses.
+    AlmostV1(usize),
     /// a well-formed header of a version the listener has disabled
     DisabledVersion(SocketAddr),
 }
@@ -45,6 +50,9 @@ impl Header {
             Header::V2Split(..) => "v2-split",
             Header::Missing => "missing",
             Header::Malformed(_) => "malformed",
+            Header::AlmostV1(0) => "v1-separator-not-a-blank",
+            Header::AlmostV1(1) => "v1-port-with-a-sign",
+            Header::AlmostV1(_) => "v1-line-longer-than-107-bytes",
             Header::DisabledVersion(_) => "disabled-version",
         }
     }
@@ -136,7 +144,13 @@ fn generate(cli: &Cli) -> Vec<Seq> {
                 None => Header::NotUsed,
                 Some((v1, v2)) => match rng.below(12) {
                     0 => Header::Missing,
-                    1 => Header::Malformed(rng.below(5) as usize),
+                    1 => {
+                        if v1 && rng.chance(1, 3) {
+                            Header::AlmostV1(rng.below(3) as usize)
+                        } else {
+                            Header::Malformed(rng.below(5) as usize)
+                        }
+                    }
                     2 => {
                         if v2 {
                             Header::V2Local
@@ -161,7 +175,16 @@ fn generate(cli: &Cli) -> Vec<Seq> {
                     }
                 },
             };
+            // (the long address-less line would be charged to its TCP peer: one of its own)
+            let peer_ip = if matches!(header, Header::AlmostV1(2)) { "127.0.0.9".parse().expect("ip") } else { peer_ip };
             conns.push(Conn { peer_ip, header, login: rng.chance(1, 6), abort: rng.chance(1, 7) });
+        }
+        // every kind of almost-valid v1 line once per sequence that allows v1
+        if let Some((true, _)) = proxy {
+            for kind in 0..3usize {
+                let peer_ip: IpAddr = if kind == 2 { "127.0.0.9".parse().expect("ip") } else { "127.0.0.2".parse().expect("ip") };
+                conns.push(Conn { peer_ip, header: Header::AlmostV1(kind), login: false, abort: false });
+            }
         }
         // health-check style connections (valid header without an address) are charged to the TCP
         // peer like any other: limit + 2 of them in a row from one peer
@@ -204,6 +227,14 @@ fn header_bytes(h: &Header, dst: SocketAddr, proxy: Option<(bool, bool)>) -> Vec
             vec![b[..at].to_vec(), b[at..].to_vec()]
         }
         Header::Malformed(i) => vec![malformed(*i)],
+        Header::AlmostV1(0) => vec![b"PROXY_TCP4 203.0.113.9 10.0.0.1 40000 25565\r\n".to_vec()],
+        Header::AlmostV1(1) => vec![b"PROXY TCP4 203.0.113.9 10.0.0.1 +40000 25565\r\n".to_vec()],
+        Header::AlmostV1(_) => {
+            let mut line = b"PROXY UNKNOWN ".to_vec();
+            line.extend(std::iter::repeat_n(b'x', 130));
+            line.extend_from_slice(b"\r\n");
+            vec![line]
+        }
         Header::DisabledVersion(s) => match proxy {
             Some((false, _)) => vec![tcp::proxy_v1(*s, dst)],
             _ => vec![tcp::proxy_v2(*s, dst)],
